@@ -24,7 +24,7 @@ func init() {
 			"the buffer); (R8) cache copy and buffer reset form one critical section; (R9) publish-then-sweep order in " +
 			"monitor.EnableKubeEventCb and in the namespace-add callback; (R10) events are unlocked only after a successful " +
 			"Synchronization, for every monitor id of the task; (R11) a single consumer turns events into tail tasks in order; (R12) sends on " +
-			"the event channels are blocking. NOT decided: that client-go delivers every change in order, that Synchronization view + " +
+			"the event channels are blocking. (R13) the shared client-go informer of a kind/namespace/selector runs under its factory's own detached context and is cancelled only when the last handler registration is removed; the unlock decision keeps an alternative that the write-back of combined metadata cannot falsify (R10). NOT decided: that client-go delivers every change in order, that Synchronization view + " +
 			"events reproduces the cluster, liveness of the capacity-1 channel.",
 		Run: runC01,
 	})
@@ -1294,6 +1294,37 @@ func nonEmptyLenOf(info *types.Info, fc eng.Fact, fld *types.Var) bool {
 	case token.LEQ: // !(len <= 0)
 		return !fc.Pos && k == 0
 	case token.LSS: // !(len < 1)
+		return !fc.Pos && k == 1
+	}
+	return false
+}
+
+// emptyLenOf: the fact states len(<field fld>) == 0 (also written as !(len > 0), len <= 0, len < 1).
+func emptyLenOf(info *types.Info, fc eng.Fact, fld *types.Var) bool {
+	if fc.Y != nil {
+		return false
+	}
+	b, ok := ast.Unparen(fc.X).(*ast.BinaryExpr)
+	if !ok {
+		return false
+	}
+	cl := builtinCall(info, b.X, "len")
+	k, isK := eng.ConstInt(info, b.Y)
+	if cl == nil || len(cl.Args) != 1 || !eng.IsField(info, cl.Args[0], fld) || !isK {
+		return false
+	}
+	switch b.Op {
+	case token.EQL:
+		return fc.Pos && k == 0
+	case token.LEQ:
+		return fc.Pos && k == 0
+	case token.LSS:
+		return fc.Pos && k == 1
+	case token.GTR:
+		return !fc.Pos && k == 0
+	case token.NEQ:
+		return !fc.Pos && k == 0
+	case token.GEQ:
 		return !fc.Pos && k == 1
 	}
 	return false
